@@ -51,12 +51,113 @@ def head(node, n=120):
     return t if len(t) <= n else t[:n] + '…'
 
 
+def _scope_nodes(fn):
+    out = []
+    stack = list(ast.iter_child_nodes(fn))
+    while stack:
+        n = stack.pop()
+        out.append(n)
+        if isinstance(n, (ast.FunctionDef, ast.AsyncFunctionDef, ast.Lambda, ast.ClassDef)):
+            continue
+        stack.extend(ast.iter_child_nodes(n))
+    return out
+
+
+def canonicalise(tree):
+    """Behaviour-preserving normal form applied to every module before any rule looks at it, so that the
+    rules see one shape for the common equivalent spellings:
+
+      (a) `v = e; return v`  ->  `return e`      (v a plain local used nowhere else in the function)
+      (b) `if not c: A else: B`  ->  `if c: B else: A`      (B not an elif chain)
+      (c) `if a: (if b: S)`  ->  `if a and b: S`      (neither has an else)
+
+    Line numbers of the surviving nodes are kept."""
+    for fn in [n for n in ast.walk(tree) if isinstance(n, (ast.FunctionDef, ast.AsyncFunctionDef))]:
+        declared = set()
+        for n in _scope_nodes(fn):
+            if isinstance(n, (ast.Global, ast.Nonlocal)):
+                declared |= set(n.names)
+        uses = {}
+        for n in ast.walk(fn):
+            if isinstance(n, ast.Name):
+                uses[n.id] = uses.get(n.id, 0) + 1
+        # occurrences that belong to an adjacent `v = e; return v` pair (the name may be reused by several pairs)
+        paired = {}
+        for n in ast.walk(fn):
+            for field in ('body', 'orelse', 'finalbody'):
+                b = getattr(n, field, None)
+                if isinstance(b, list):
+                    for i in range(len(b) - 1):
+                        if isinstance(b[i], ast.Assign) and len(b[i].targets) == 1 and isinstance(b[i].targets[0], ast.Name) \
+                                and isinstance(b[i + 1], ast.Return) and isinstance(b[i + 1].value, ast.Name) \
+                                and b[i + 1].value.id == b[i].targets[0].id:
+                            v = b[i].targets[0].id
+                            inner = sum(1 for x in ast.walk(b[i].value) if isinstance(x, ast.Name) and x.id == v)
+                            paired[v] = paired.get(v, 0) + 2 + inner if inner == 0 else -10 ** 6
+        inlinable = {v for v, c in paired.items() if c == uses.get(v, 0)}
+
+        def blocks(node):
+            for field in ('body', 'orelse', 'finalbody'):
+                b = getattr(node, field, None)
+                if isinstance(b, list) and b and isinstance(b[0], ast.stmt):
+                    yield b
+            for h in getattr(node, 'handlers', []) or []:
+                yield h.body
+
+        todo = [fn]
+        while todo:
+            node = todo.pop()
+            for b in blocks(node):
+                i = 0
+                while i < len(b):
+                    st = b[i]
+                    # (a)
+                    if isinstance(st, ast.Assign) and len(st.targets) == 1 and isinstance(st.targets[0], ast.Name) \
+                            and i + 1 < len(b) and isinstance(b[i + 1], ast.Return) and isinstance(b[i + 1].value, ast.Name) \
+                            and b[i + 1].value.id == st.targets[0].id and st.targets[0].id not in declared \
+                            and st.targets[0].id in inlinable:
+                        ret = b[i + 1]
+                        ret.value = st.value
+                        ret.lineno = st.lineno
+                        del b[i]
+                        continue
+                    if isinstance(st, ast.If):
+                        # (c)
+                        while not st.orelse and len(st.body) == 1 and isinstance(st.body[0], ast.If) and not st.body[0].orelse:
+                            inner = st.body[0]
+                            left = st.test.values if isinstance(st.test, ast.BoolOp) and isinstance(st.test.op, ast.And) else [st.test]
+                            right = inner.test.values if isinstance(inner.test, ast.BoolOp) and isinstance(inner.test.op, ast.And) \
+                                else [inner.test]
+                            st.test = ast.copy_location(ast.BoolOp(op=ast.And(), values=list(left) + list(right)), st.test)
+                            st.body = inner.body
+                        # (b)
+                        if st.orelse and isinstance(st.test, ast.UnaryOp) and isinstance(st.test.op, ast.Not) \
+                                and not (len(st.orelse) == 1 and isinstance(st.orelse[0], ast.If)):
+                            st.test = st.test.operand
+                            st.body, st.orelse = st.orelse, st.body
+                    if not isinstance(st, (ast.FunctionDef, ast.AsyncFunctionDef, ast.ClassDef)):
+                        todo.append(st)
+                    i += 1
+    # (d) `pass` in a block that has other statements is dropped; (e) keyword arguments in a fixed (alphabetical) order
+    for node in ast.walk(tree):
+        for field in ('body', 'orelse', 'finalbody'):
+            b = getattr(node, field, None)
+            if isinstance(b, list) and len(b) > 1 and any(isinstance(x, ast.Pass) for x in b):
+                kept = [x for x in b if not isinstance(x, ast.Pass)]
+                if kept:
+                    b[:] = kept
+        if isinstance(node, ast.Call) and len(node.keywords) > 1 and all(k.arg for k in node.keywords):
+            node.keywords.sort(key=lambda k: k.arg)
+    ast.fix_missing_locations(tree)
+    return tree
+
+
 class Module(object):
     def __init__(self, name, path, text):
         self.name = name
         self.path = path
         self.text = text
-        self.tree = ast.parse(text, filename=path)
+        self.tree = canonicalise(ast.parse(text, filename=path))
         for parent in ast.walk(self.tree):
             for child in ast.iter_child_nodes(parent):
                 child._parent = parent
@@ -168,6 +269,10 @@ class Model(object):
 
     # -- lookup -------------------------------------------------------------
     def mod(self, name):
+        try:
+            self.consulted.add(name)
+        except AttributeError:
+            self.consulted = {name}
         if name in self.load_errors:
             raise AnalysisError('module %s does not parse: %s' % (name, self.load_errors[name]))
         if name not in self.modules:
